@@ -63,7 +63,11 @@ def early_iteration(ctx, scs):
             continue
         n += 1
         tr2, comp2, (fin2, _) = sim.run_impl(sc, early_at=ticks)
-        if sim.norm(tr2) != sim.norm(tr) or sim.norm(fin2) != sim.norm(fin) or comp2 != comp:
+        # timers armed in an early iteration are due a quarter tick before those armed on the tick: two expiries of one
+        # tick may swap - the events of one instant are compared as a multiset
+        def by_tick(t):
+            return sorted((e[0], sexp.dumps(e[1])) for e in sim.norm(t))
+        if by_tick(tr2) != by_tick(tr) or sim.norm(fin2) != sim.norm(fin) or comp2 != comp:
             v = ctx.model.call(3009, [sim.scenario_sexp(sc), stackprop.trace_sexp(tr2)])
             codes = sexp.loads(v) if v.startswith("(") else [98]
             ctx.violation("TTL store: the outcome depends on a datagram arriving a fraction of the clock resolution before a TTL deadline (the expiry runs in that "
